@@ -86,6 +86,7 @@ pub fn run_direct(args: &Args, rep: &mut Report) {
     let thorough = args.thorough;
     run_cases(args, "C02", 128, rep, &mut |c, rep| {
         if !mine(args, c) {
+            rep.cases -= 1;
             return;
         }
         let b0 = 0x80 + c as u8;
